@@ -10,3 +10,7 @@ claim("C03", "DESIGN.md 5/C03",
       "Lean 4: decision over the decorator stacks regenerated from the live source (login_required outermost on every protected verb) + theorems over the session model for all states/trees/commands (nothing served before login, re-USER drops the login, PASS authorises only with the password) + differential histories against the real dispatcher with a spying backend + independent authSpec oracle",
       "guards_table is re-decided by the kernel against the current source on every run; the model theorems are unbounded; the tie model=code is exhaustive over login histories to a bound and sampled beyond.",
       "Trusted: Lean kernel; translator (closure-cell walk of the bound methods), cross-checked by the behavioural run; MemoryUserManager only.")
+claim("C12", "DESIGN.md 5/C12",
+      "Lean 4 small-step model of what a session holds + theorems that the dispatcher's finally releases everything from every state outside three proved crash points + exhaustive cut sweep (peer vanish / server.close() at every loop iteration of every corpus script, gates inside backend calls and listener start-up) on the real server under a simulated network, ledger compared with the model's prediction",
+      "The theorem is about the model's resources for all states; the sweep is exhaustive over the corpus at loop-iteration granularity and compares the real ledger with the model at every cut; three crash points are recorded findings.",
+      "Trusted: Lean kernel; in-memory transports for sockets; asyncio cancellation semantics; finite backend delays.")
